@@ -463,6 +463,34 @@ def runHistory : List (Env × Req) → Sys → Sys
   | [], s => s
   | (env, req) :: rest, s => runHistory rest (processUpload env req s).sys
 
+/-! ### db.ReplaceUpload (used by the reindex tool) -/
+
+/-- `db.ReplaceUpload(id)`, then InsertRecord of `rs`, then Commit (`commit`) or Abort.
+The DELETE of the old records and the INSERT of a missing Uploads row run outside the record
+transaction (they are effective even if the replacement is aborted). Ids of the form digits.digits
+only (other ids get NULL day/seq and are not modelled). -/
+def replaceUpload (k : UKey) (rs : List Res) (commit : Bool) (db : DB) : DB :=
+  let recs := db.records.filter (fun r => !(r.up == k))
+  let ups := if k ∈ db.uploads then db.uploads else db.uploads ++ [k]
+  match ({ id := k } : Tx).insertRecords rs with
+  | none => { uploads := ups, records := recs }
+  | some t1 =>
+    if commit then
+      match t1.flush with
+      | some t2 => { uploads := ups, records := recs ++ t2.txRec }
+      | none => { uploads := ups, records := recs }
+    else { uploads := ups, records := recs }
+
+/-- an operation on the server: an upload request or a reindex of one upload -/
+inductive HOp where
+  | upload (env : Env) (req : Req)
+  | replace (k : UKey) (rs : List Res) (commit : Bool)
+
+def runOps : List HOp → Sys → Sys
+  | [], s => s
+  | HOp.upload env req :: rest, s => runOps rest (processUpload env req s).sys
+  | HOp.replace k rs commit :: rest, s => runOps rest { s with db := replaceUpload k rs commit s.db }
+
 /-! ### queries and listings -/
 
 /-- every stored result: (row, benchmark line) -/
